@@ -140,6 +140,87 @@ static void alloc_failure_objects() {
   }
 }
 
+// ---- full observable state of a Parameter (shape, value, gradient, named statistics) ----
+struct PSnap {
+  bool valid; Shape shape; V value, grad; std::vector<std::pair<std::string, std::pair<Shape, V>>> stats;
+};
+static PSnap psnap(Parameter &p, const std::vector<std::string> &names) {
+  PSnap s; s.valid = p.valid();
+  if (!s.valid) return s;
+  s.shape = p.shape(); s.value = p.value().to_vector(); s.grad = p.gradient().to_vector();
+  for (const std::string &n : names) {
+    if (!p.has_stats(n)) { s.stats.push_back({n + ":absent", {Shape(), V()}}); continue; }
+    s.stats.push_back({n, {p.stats(n).shape(), p.stats(n).to_vector()}});
+  }
+  return s;
+}
+static std::string pdiff(const PSnap &a, const PSnap &b) {
+  if (a.valid != b.valid) return "validity changed";
+  if (!a.valid) return "";
+  if (a.shape != b.shape) return "shape changed";
+  if (!same(a.value, b.value)) return "value changed";
+  if (!same(a.grad, b.grad)) return "gradient changed";
+  for (size_t i = 0; i < a.stats.size(); ++i) {
+    if (a.stats[i].first != b.stats[i].first) return "statistics `" + a.stats[i].first + "` -> `" + b.stats[i].first + "`";
+    if (a.stats[i].second.first != b.stats[i].second.first || !same(a.stats[i].second.second, b.stats[i].second.second)) return "statistics `" + a.stats[i].first + "` changed";
+  }
+  return "";
+}
+// a call that must be rejected with Error and must leave the parameter exactly as it was
+#define EXPECT_REJECTED_UNCHANGED(what, par, names, expr) { PSnap b_ = psnap(par, names); std::string r_ = outcome([&]() { expr; }); \
+  if (r_ != "Error") fail(what, "expected primitiv::Error, got " + r_); else { std::string d_ = pdiff(b_, psnap(par, names)); if (d_ != "") fail(what, "rejected call changed the parameter: " + d_); else ok(what); } }
+
+static void parameter_with_stats() {
+  devices::Naive dev(3u);
+  Device::set_default(dev);
+  V v6 = {1, 2, 3, 4, 5, 6};
+  const std::vector<std::string> names = {"s", "m", "b", "absent"};
+  Parameter p(Shape({2, 3}), v6, dev);
+  p.gradient() += dev.new_tensor_by_vector(Shape({2, 3}), V{-1, 0.5f, 2, -0.0f, 7, 9});
+  p.add_stats("s", Shape({2})); p.stats("s").reset_by_vector(V{3, -4});
+  p.add_stats("m", Shape({2, 3})); p.stats("m").reset_by_vector(V{6, 5, 4, 3, 2, 1});
+  p.add_stats("b", Shape({2}, 2)); p.stats("b").reset_by_vector(V{1, 2, 3, 4});
+  EXPECT_REJECTED_UNCHANGED("init(values): size mismatch, parameter with statistics", p, names, p.init(Shape({2, 2}), v6, dev));
+  EXPECT_REJECTED_UNCHANGED("init(values): too few values, parameter with statistics", p, names, p.init(Shape({2, 3}), V{1, 2}, dev));
+  EXPECT_REJECTED_UNCHANGED("init(values): batched shape, parameter with statistics", p, names, p.init(Shape({2, 3}, 2), V(12, 1.0f), dev));
+  EXPECT_REJECTED_UNCHANGED("init(initializer): batched shape, parameter with statistics", p, names, p.init(Shape({2, 3}, 2), initializers::Constant(1.0f), dev));
+  EXPECT_REJECTED_UNCHANGED("init(initializer): Identity on a non-square shape, parameter with statistics", p, names, p.init(Shape({2, 3}), initializers::Identity(), dev));
+  EXPECT_REJECTED_UNCHANGED("add_stats: duplicate name", p, names, p.add_stats("s", Shape({5})));
+  EXPECT_REJECTED_UNCHANGED("load: file does not exist", p, names, p.load("/verif/_work/no-such-file-for-fault-drv", true, dev));
+  // optimizer-registered statistics survive a rejected init and the optimizer stays usable
+  {
+    Parameter q(Shape({2}), V{1, 2}, dev);
+    optimizers::Adam adam; adam.add(q);
+    q.gradient() += dev.new_tensor_by_constant(Shape({2}), 1.0f);
+    adam.update();
+    const std::vector<std::string> an = {"Adam.m1", "Adam.m2"};
+    EXPECT_REJECTED_UNCHANGED("init(values): size mismatch on an optimizer-registered parameter", q, an, q.init(Shape({3}), V{1, 2}, dev));
+    q.gradient() += dev.new_tensor_by_constant(Shape({2}), 1.0f);
+    std::string r = outcome([&]() { adam.update(); });
+    if (r != "ok") fail("Adam::update() after a rejected Parameter::init", r); else ok("adam usable");
+  }
+  // a SUCCESSFUL init drops the statistics (documented behaviour of init): make sure the check above is not vacuous
+  {
+    Parameter q(Shape({2}), V{1, 2}, dev); q.add_stats("s", Shape({2}));
+    q.init(Shape({3}), V{1, 2, 3}, dev);
+    if (q.shape() != Shape({3})) fail("successful init", "shape not replaced"); else ok("init ok");
+  }
+  // allocation failure inside init() of a parameter with statistics
+  pvh::MemStats &m = pvh::mem();
+  pvh::CheckedNaive cdev(9u);
+  for (long k = 0; k < 4; ++k) {
+    Parameter q(Shape({2, 3}), v6, cdev);
+    q.add_stats("s", Shape({2})); q.stats("s").reset_by_vector(V{3, -4});
+    const std::vector<std::string> qn = {"s"};
+    PSnap b = psnap(q, qn);
+    m.fail_at = m.total + k;
+    std::string r = outcome([&]() { q.init(Shape({3, 2}), V{9, 8, 7, 6, 5, 4}, cdev); });
+    m.fail_at = -1;
+    if (r == "Error") { std::string d = pdiff(b, psnap(q, qn)); if (d != "") fail("Parameter::init alloc failure k=" + std::to_string(k) + " (with statistics)", d); else ok("init alloc fail"); }
+    else if (r != "ok") fail("Parameter::init alloc failure (with statistics)", r);
+  }
+}
+
 static void invalid_objects() {
   devices::Naive dev(1u), dev2(2u);
   Device::set_default(dev);
@@ -331,6 +412,7 @@ int main(int argc, char **argv) {
   int n = argc > 2 ? std::stoi(argv[2]) : 12;
   std::mt19937 rng(seed);
   invalid_objects();
+  parameter_with_stats();
   alloc_failure_objects();
   for (int i = 0; i < n; ++i) {
     Prog p{(unsigned)i, 2 + (std::uint32_t)(rng() % 3), 2 + (std::uint32_t)(rng() % 3), 1 + (std::uint32_t)(rng() % 3)};
